@@ -196,8 +196,14 @@ def run(chk):
     if not chk.violations:
         sc0 = calsim.Scenario(rng, 'T8', 1, 1, 2).begin()
         sc0.solt().solve().add_calibration(b'c')
-        fixed = sc0.lines + ['cal apply 0 0 m 0 1 1', 'cal new_alloc 0 3 0 1 1 0', 'cal new_set_frequency_vector 3', 'cal add 3 single_reflect m 0 1 1 2 1',
-                             'cal add 3 single_reflect m 0 1 1 1 1', 'cal add 3 single_reflect m 0 1 1 0 1', 'cal solve 3', 'cal new_free 3',
+        fixed = sc0.lines + ['cal apply 0 0 m 0 1 1', 'cal new_alloc 0 3 0 1 1 0', 'cal new_set_frequency_vector 3',
+                             # an error model on its own grid, given to a calibration of zero frequencies
+                             'cal new_set_m_error 3 2 F %s %s S %s %s N' % (vlib.d2h(1e9), vlib.d2h(2e9), vlib.d2h(1e-3), vlib.d2h(1e-3)),
+                             'cal add 3 single_reflect m 0 1 1 2 1',
+                             'cal add 3 single_reflect m 0 1 1 1 1', 'cal add 3 single_reflect m 0 1 1 0 1', 'cal solve 3',
+                             # the zero-frequency calibration stored, and applied at a frequency
+                             'cal add_calibration 0 %s 3' % vlib.hexbytes(b'empty'), 'cal apply 0 1 m 1 1 1 %s %s' % (vlib.d2h(1e9), vlib.c2h(0.5)),
+                             'cal apply 0 1 m 0 1 1', 'cal new_free 3',
                              'cal save 0 ' + vlib.hexbytes(b'/dev/full'), 'cal free 0', 'cal live']
         out, rc, err = vlib.run_lines(exe, fixed, timeout=300)
         chk.evaluations += 1
@@ -207,6 +213,62 @@ def run(chk):
             chk.violation('residue-empty', 'allocations remain: %s' % out[-1], fixed)
         else:
             chk.count('empty_vectors_ok')
+    # a partly known standard (rectangular S matrix through vnacal_new_add_mapped_matrix) in every type: accepted or refused, never an abort
+    if not chk.violations:
+        for typ, (sr, sc_) in (('T8', (3, 2)), ('TE10', (3, 2)), ('U8', (2, 3)), ('UE10', (2, 3)), ('UE14', (2, 3)), ('E12', (2, 3)), ('T16', (3, 2)), ('U16', (2, 3)),
+                               ('T8', (2, 3)), ('U8', (3, 2)), ('T16', (2, 3)), ('U16', (3, 2))):
+            L = ['cal create 0', 'cal new_alloc 0 0 %d 3 3 1' % calsim.TYPES[typ], 'cal new_set_frequency_vector 0 %s' % vlib.d2h(1e9),
+                 'cal add 0 mapped m 1 3 3 %s %d %d 0 1 1 0 0 0 M 1 2 3' % (' '.join(vlib.c2h(0.1 * k) for k in range(9)), sr, sc_),
+                 'cal solve 0', 'cal free 0', 'cal live']
+            out, rc, err = vlib.run_lines(exe, L, timeout=300)
+            chk.evaluations += 1
+            if rc != 0 or len(out) != len(L):
+                chk.violation('sanitizer-rect-s', '%s 3x3, a %dx%d S matrix through vnacal_new_add_mapped_matrix_m: crash / abort / sanitizer report:\n%s' % (typ, sr, sc_, err[-1500:]), L[:len(out) + 1])
+                break
+            chk.count('rect_s_ok')
+    # leakage samples (cells on no signal path) that are huge, infinite or not numbers, with the error model on: the statistic is not finite
+    if not chk.violations:
+        from props import c02
+        for typ in ('TE10', 'UE10', 'UE14', 'E12'):
+            for val in (1e200, float('inf'), float('nan')):
+                s3 = c02.Sc(rng, typ, 3, 3, 1, form='m').begin()
+                s3.lines.append('cal new_set_m_error %d 1 N S %s T %s' % (s3.n, vlib.d2h(1e-4), vlib.d2h(1e-3)))
+                s3.add_through(1, 2)
+                s3.add_through(2, 3)
+                for port in (1, 2, 3):
+                    for code in (calsim.SHORT, calsim.OPEN, calsim.MATCH):
+                        s3.add_reflect(port, code)
+                        t = s3.lines[-1].split()
+                        i0 = t.index('m') + 4
+                        t[i0 + 4], t[i0 + 5] = vlib.d2h(val), vlib.d2h(0.0)            # M13
+                        t[i0 + 12], t[i0 + 13] = vlib.d2h(0.0), vlib.d2h(val)          # M31
+                        s3.lines[-1] = ' '.join(t)
+                s3.lines += ['cal solve %d' % s3.n, 'cal free 0', 'cal live']
+                out, rc, err = vlib.run_lines(exe, s3.lines, timeout=300)
+                chk.evaluations += 1
+                if rc != 0 or len(out) != len(s3.lines):
+                    chk.violation('sanitizer-nonfinite-leakage', '%s 3x3: leakage samples of %r with the error model on: crash / abort / sanitizer report:\n%s' % (typ, val, err[-1500:]), s3.lines[:len(out) + 1])
+                    break
+                chk.count('nonfinite_leakage_ok')
+            if chk.violations:
+                break
+    # an exactly determined system whose only unknowns are correlated parameters, with the error model set (no V matrices exist)
+    if not chk.violations:
+        from props import c02
+        for typ in ('T8', 'U8', 'TE10', 'UE10'):
+            s2 = c02.Sc(rng, typ, 2, 2, 1, form='m').begin()
+            hc = s2.correlated(calsim.SHORT, 0.1, -1.0)
+            s2.lines.append('cal new_set_m_error %d 1 N S %s N' % (s2.n, vlib.d2h(1e-3)))
+            s2.add_through(1, 2)
+            s2.std2r(1, 2, calsim.OPEN, hc, 1.0, -1.0)
+            s2.add_reflect(1, calsim.MATCH)
+            s2.lines += ['cal solve %d' % s2.n, 'cal free 0', 'cal live']
+            out, rc, err = vlib.run_lines(exe, s2.lines, timeout=300)
+            chk.evaluations += 1
+            if rc != 0 or len(out) != len(s2.lines):
+                chk.violation('sanitizer-exact-correlated', '%s: exactly determined system with a correlated parameter and the error model: crash / sanitizer report:\n%s' % (typ, err[-1500:]), s2.lines[:len(out) + 1])
+                break
+            chk.count('exact_correlated_ok')
     # parameters that outlive a vnacal_new_t and are solved again on another grid (shorter, longer, shifted): no access beyond the new vectors
     if not chk.violations:
         from props import c02
